@@ -71,6 +71,8 @@ pub fn dump_case(id: &str, c: &compiler::pipeline::pipeline::Compilation, out: &
     writeln!(out, "{}\tSTAGE\tlift\t{}", id, prog(dump::lift_file(&c.lambda), &impls).to_text()).unwrap();
     writeln!(out, "{}\tSTAGE\tanf\t{}", id, prog(dump::anf_file(&c.anf), &impls).to_text()).unwrap();
     writeln!(out, "{}\tSTAGE\tgo\t{}", id, godump::gfile(&c.go).to_text()).unwrap();
+    // input of the composite middle-end model (C01 pipeline composition): the type definitions of `genv`
+    writeln!(out, "{}\tGENV\t{}", id, tagged("genv", vec![crate::c07::enums_s(c.genv.enums()), crate::c07::structs_s(c.genv.structs())]).to_text()).unwrap();
     // the printer tie: what the user runs is the printed text
     let text = c.go.to_pretty(&c.goenv, 120);
     let erased = crate::goparse::erase_file(&c.go);
@@ -217,7 +219,7 @@ pub fn main(args: &util::Args) {
         let _ = std::fs::remove_dir_all(&dir);
     }
     // minimised past failures kept under /verif/corpus
-    for sub in ["C01", "C02", "C03", "C06", "C07", "C08", "C09"] {
+    for sub in ["C01", "C01pipe", "C02", "C03", "C06", "C07", "C08", "C09"] {
         let Ok(rd) = std::fs::read_dir(util::verif_root().join("corpus").join(sub)) else { continue };
         let mut files: Vec<_> = rd.filter_map(|e| e.ok().map(|e| e.path())).filter(|p| p.extension().is_some_and(|x| x == "gom")).collect();
         files.sort();
